@@ -19,6 +19,17 @@ func init() {
 		"strings.HasPrefix":                        func(c *FnCtx, x *ast.CallExpr, f *types.Func, a []string, st *State) []string { return []string{"(str.prefixof " + a[1] + " " + a[0] + ")"} },
 		"strings.HasSuffix":                        func(c *FnCtx, x *ast.CallExpr, f *types.Func, a []string, st *State) []string { return []string{"(str.suffixof " + a[1] + " " + a[0] + ")"} },
 		"strings.Contains":                         func(c *FnCtx, x *ast.CallExpr, f *types.Func, a []string, st *State) []string { return []string{"(str.contains " + a[0] + " " + a[1] + ")"} },
+		"math.Trunc": func(c *FnCtx, x *ast.CallExpr, f *types.Func, a []string, st *State) []string {
+			t := "(fp.roundToIntegral RTZ " + a[0] + ")"
+			if c.specMode == 0 {
+				n := c.fresh("trunc", sF64)
+				st.addDef(eq(n, t))
+				fin := and(not("(fp.isNaN "+a[0]+")"), not("(fp.isInfinite "+a[0]+")"))
+				st.addDef(implies(fin, and("(is_int (fp.to_real "+n+"))", eq("(fp.eq "+n+" "+a[0]+")", "(is_int (fp.to_real "+a[0]+"))"))))
+				return []string{n}
+			}
+			return []string{t}
+		},
 		"unicode/utf8.RuneCountInString": func(c *FnCtx, x *ast.CallExpr, f *types.Func, a []string, st *State) []string {
 			r := "(runeCount " + a[0] + ")"
 			if c.specMode == 0 {
